@@ -28,12 +28,13 @@ FUNCTIONS_ENCODED = [
     'yaql.standard_library.collections: #list, #map, #indexer, dict member access, +',
     'yaql.standard_library.queries: select, where, collection attribution, sum, len', 'yaql.standard_library.math: +, >']
 BOUNDS = {
-    'quick': 'programs: code = concrete prefix (shard) + symbolic tail List[int] of length 2..3 decoded breadth first at depth '
-             '2 (some shards depth 3) over 21 node kinds and 8 leaves - every program of a shard is explored; shards: the '
-             'fixed scoping core plus a seeded sample; data: document shape per shard built from symbolic i1,i2,i3 in '
-             '[-2,3]',
-    'thorough': 'same with more shards (every root kind x every kind of its first child at depth 2, plus a larger seeded '
-                'sample at depth 3) and tail length 3'}
+    'quick': 'programs: an integer code decoded breadth first by recursive descent over 21 node kinds and 7 leaves; a shard '
+             'fixes part of the code (template) and leaves 2 slots symbolic (List[int] of length 2): every program of the '
+             'shard (49 when both slots are leaves, up to 147 when one is a kind) is explored; shards: a window of 22 of the '
+             '49 scoping-core templates at depth 2 (rotated by VERIF_SEED) plus 4 seeded random depth-3 programs with two '
+             'symbolic leaves; data: document shape per shard built from symbolic i1,i2,i3 in [-2,3]',
+    'thorough': 'all 49 core templates, the first 12 also with 3 symbolic slots, 60 seeded random depth-3 templates, and '
+                'every scoping root (12) x every kind of its first child (21) with the following slot symbolic'}
 OUTSIDE = ['programs outside the sampled shards / deeper than the bound', 'functions outside the fragment',
            'yaql.iterableDicts, the legacy dialect', 'ordering of non-numbers (C15)', 'a lazy sequence consumed twice or '
            'used as a truth value, a boolean as list index (unspecified: nothing asserted)',
@@ -316,7 +317,8 @@ def validate():
         got = engine_outcome(text, data if data is not None else 0)
         if got != ('ok', expected):
             bad.append('recorded scoping expression %s gives %r, recorded %r' % (text, got, expected))
-    rnd = random.Random(int(H.P('seed', 0)) + 7)
+    import os
+    rnd = random.Random(int(os.environ.get('VERIF_SEED', '0') or 0) + 7)
     n = 0
     while n < 400 and len(bad) < 5:
         code = [rnd.randrange(0, 22) for _ in range(rnd.randint(1, 24))]
